@@ -41,6 +41,7 @@ WORD_THEOREMS = ['srcWords_closed', 'srcTemps_prefixed', 'pathFromStrs_rooted']
 UNSAFE_THEOREMS = ['unsafeTemplates_guarded']
 PANIC_THEOREMS = ['panicSites_known']
 CFG_THEOREMS = ['cfgSites_known']
+SPAN_THEOREMS = ['spanSites_known']
 
 THEOREMS = ['groupTraits_eq', 'groups_complete', 'traits_complete', 'ints_complete', 'traitSupported_eq', 'traitOfName_eq',
             'traitOfName_complete', 'traitOfName_asStr', 'groupOfName_eq', 'groupOfName_complete', 'reprOfName_eq',
@@ -169,6 +170,10 @@ def extract(repo):
     except (Missing, OSError, ValueError, IndexError) as e:
         out['panic_sites'] = None
     try:
+        out['span_sites'] = extract_span_sites(repo)
+    except (OSError, ValueError) as e:
+        out['span_sites'] = None
+    try:
         out['cfg_sites'] = extract_cfg_sites(repo)
     except (OSError, ValueError) as e:
         out['cfg_sites'] = None
@@ -275,6 +280,23 @@ def extract_cfg_sites(repo):
     return sorted((f, e, n) for (f, e), n in c.items())
 
 
+def extract_span_sites(repo):
+    """Every place of the source that chooses a span: (file, construct, occurrences)."""
+    import glob
+    import collections
+    c = collections.Counter()
+    for f in sorted(glob.glob(os.path.join(repo, 'src/**/*.rs'), recursive=True)):
+        if '/src/test/' in f or f.endswith('verif_hook.rs'):
+            continue
+        src = re.sub(r'//[^\n]*', '', open(f).read())
+        for m in re.finditer(r'quote_spanned!|Span::\w+|\bset_span\b|\bresolved_at\b|\blocated_at\b|format_ident!\([^)]*\bspan\s*=', src):
+            k = m.group(0)
+            if k.startswith('format_ident!'):
+                k = 'format_ident!(span =)'
+            c[(os.path.relpath(f, repo), k)] += 1
+    return sorted((f, k, n) for (f, k), n in c.items())
+
+
 def extract_unsafe_sites(repo):
     """Every token template of the source that contains the word `unsafe`, with whether the statement or match arm it
     belongs to carries `#[cfg(not(feature = "safe"))]` (the nearest `#[cfg(..)]` within the three lines above)."""
@@ -302,7 +324,7 @@ def extract_unsafe_sites(repo):
 
 
 def lean_file(t):
-    L = ['import DW.Validate', 'import DW.Message', 'import DW.Render', 'import DW.Spec', 'import DW.Lemmas.Vocab', 'import DW.PanicSites', 'import DW.CfgSites', '',
+    L = ['import DW.Validate', 'import DW.Message', 'import DW.Render', 'import DW.Spec', 'import DW.Lemmas.Vocab', 'import DW.PanicSites', 'import DW.CfgSites', 'import DW.SpanSites', '',
          '/-! Tables extracted from the Rust source on this run, and their equality with the model (kernel-checked). -/',
          'namespace DW.Extracted', 'open DW', '']
     L.append('def zcfg : Cfg := { safe := false, nightly := false, zeroize := true, zod := true }')
@@ -371,6 +393,11 @@ def lean_file(t):
         L += ['/-- The panic sites of the current source are exactly the ones `DW/PanicSites.lean` accounts for. -/',
               'theorem panicSites_known : srcPanicSites = knownPanicSites := by decide +kernel']
         names += PANIC_THEOREMS
+    if t.get('span_sites') is not None:
+        L.append('def srcSpanSites : List (String × String × Nat) := [%s]' % ', '.join('(%s, %s, %d)' % (lean_str(f), lean_str(k), n) for f, k, n in t['span_sites']))
+        L += ['/-- The places of the current source that choose a span are exactly the ones `DW/SpanSites.lean` accounts for. -/',
+              'theorem spanSites_known : srcSpanSites = knownSpanSites := by decide +kernel']
+        names += SPAN_THEOREMS
     if t.get('cfg_sites') is not None:
         L.append('def srcCfgSites : List (String × String × Nat) := [%s]' % ', '.join('(%s, %s, %d)' % (lean_str(f), lean_str(e), n) for f, e, n in t['cfg_sites']))
         L += ['/-- The feature-dependent sites of the current source are exactly the ones `DW/CfgSites.lean` accounts for. -/',
@@ -396,6 +423,7 @@ def check(prop):
         return None, repr(e)
     if prop != 'C14':
         t['words'] = None          # the vocabulary of the templates is C14's obligation only
+        t['span_sites'] = None     # and so is the inventory of span choices
     if prop != 'C12':
         t['unsafe_sites'] = None   # the cfg guards of the `unsafe` templates are C12's
     if prop != 'C16':
@@ -412,7 +440,7 @@ def check(prop):
         return ['the tables extracted from the source differ from the model\'s (%s): %s' % (os.path.relpath(f, runner.VERIF), ' | '.join(errs)[:600])], 0
     bad = []
     global LAST_NAMES
-    LAST_NAMES = list(THEOREMS) + (PATH_THEOREMS if t.get('paths') else []) + (WORD_THEOREMS if t.get('words') is not None else []) + (PANIC_THEOREMS if t.get('panic_sites') is not None else []) + (CFG_THEOREMS if t.get('cfg_sites') is not None else []) + (UNSAFE_THEOREMS if t.get('unsafe_sites') is not None else [])
+    LAST_NAMES = list(THEOREMS) + (PATH_THEOREMS if t.get('paths') else []) + (WORD_THEOREMS if t.get('words') is not None else []) + (PANIC_THEOREMS if t.get('panic_sites') is not None else []) + (CFG_THEOREMS if t.get('cfg_sites') is not None else []) + (SPAN_THEOREMS if t.get('span_sites') is not None else []) + (UNSAFE_THEOREMS if t.get('unsafe_sites') is not None else [])
     for n in LAST_NAMES:
         m = re.search(r"'DW\.Extracted\.%s' (does not depend on any axioms|depends on axioms: \[([^\]]*)\])" % n, p.stdout)
         if not m:
